@@ -57,8 +57,7 @@ func (m *MACPayload) decode(payload []byte, pos *int) error {
 		return err
 	}
 	payloadLength := len(payload) - *pos - 4 /* MIC */
-	if payloadLength == 1 || payloadLength < 0 {
-		// payload must include port so port + payload can't be 1
+	if payloadLength < 0 {
 		return ErrBufferTruncated
 	}
 	if payloadLength == 0 {
@@ -68,17 +67,18 @@ func (m *MACPayload) decode(payload []byte, pos *int) error {
 
 	m.FPort = payload[*pos]
 	*pos++
+	// The frame payload ends where the MIC starts
+	end := *pos + payloadLength - 1
 	if m.FPort == 0 {
-		m.MACCommands = NewMACCommandSet(m.MACCommands.Message(), payloadLength)
-		if err := m.MACCommands.decode(payload, pos); err != nil {
-			if err == errUnknownMAC {
-				return nil
-			}
+		// MAC commands in the payload; whatever can't be decoded is left in
+		// the FRMPayload field
+		m.MACCommands = NewMACCommandSet(m.MACCommands.Message(), payloadLength-1)
+		if err := m.MACCommands.decodeBounded(payload, pos, end); err != nil {
 			return err
 		}
 	}
 
-	m.FRMPayload = payload[*pos : *pos+payloadLength-1]
+	m.FRMPayload = payload[*pos:end]
 
 	return nil
 }
